@@ -180,7 +180,8 @@ def r6_for_rev(text):
     for m in rx.finditer(text):
         i = _fresh()
         x, pat = m.group("x"), m.group("pat")
-        new = "let mut %s: usize = %s.len(); while %s > 0 { %s -= 1; let %s = &%s[%s];" % (i, x, i, i, pat, x, i)
+        # (`i <= X.len()` is redundant — i starts at X.len() and only decreases — and spares an invariant)
+        new = "let mut %s: usize = %s.len(); while %s > 0 && %s <= %s.len() { %s -= 1; let %s = &%s[%s];" % (i, x, i, i, x, i, pat, x, i)
         out.append(text[pos:m.start()])
         out.append(_pad(m.group(0), new))
         pos = m.end()
